@@ -163,6 +163,39 @@ Proof.
     destruct (0 <? n); [|reflexivity]. destruct (weak b =? 0); reflexivity.
 Qed.
 
+(** [Rc::is_unique] (behind [get_mut]): no Weak and exactly one strong handle;
+    the model's [AGetMut] returns exactly this boolean *)
+Theorem rc_is_unique_translated b : repr_ok b ->
+  g_rc_is_unique (cells_of b) =
+  if weak b =? 0 then Overflow
+  else Ret ((weak b =? 1) && match strong b with Cnt 1 => true | _ => false end) (cells_of b).
+Proof.
+  intros Hr. unfold g_rc_is_unique. unfold Counters.bind at 1 2. rewrite rc_weak_count_translated.
+  destruct (N.eqb_spec (weak b) 0) as [E0|E0]; [reflexivity|].
+  unfold Counters.bind at 1 2. unfold ret at 1 2. cbn beta iota.
+  destruct (N.eqb_spec (weak b - 1) 0) as [E1|E1].
+  - assert (weak b =? 1 = true) as -> by (apply N.eqb_eq; lia). cbn [andb].
+    unfold Counters.bind. rewrite rc_strong_count_translated. unfold ret. f_equal.
+    destruct Hr as [Hs _]. destruct (strong b) as [n|] eqn:E; cbn [enc].
+    + destruct n as [|[p|p|]]; reflexivity.
+    + apply N.eqb_neq. rewrite MAXU_val. lia.
+  - assert (weak b =? 1 = false) as -> by (apply N.eqb_neq; lia). reflexivity.
+Qed.
+
+Theorem act_get_mut_translated s self r o b :
+  reg_get s r = RStrong o -> getb (heap_of s) o = Ok b -> repr_ok b ->
+  match g_rc_is_unique (cells_of b) with
+  | Ret v _ => exec_act s self (AGetMut r) = AO s self (RBool v) []
+  | Overflow => exec_act s self (AGetMut r) = AHalt (HFault FkUnderflow o)
+  | Abort => False
+  end.
+Proof.
+  intros Hreg Hg Hr. rewrite (rc_is_unique_translated b Hr). cbn [exec_act]. rewrite Hreg, Hg.
+  destruct (weak b =? 0); reflexivity.
+Qed.
+
+Print Assumptions rc_is_unique_translated.
+Print Assumptions act_get_mut_translated.
 Print Assumptions rc_strong_count_translated.
 Print Assumptions rc_weak_count_translated.
 Print Assumptions weak_strong_count_translated.
